@@ -139,6 +139,13 @@ class Prop(BaseProp):
             self.big_files = getattr(self, "big_files", 0) + 1
         for k in range(ncmd):
             args = [argen.any_arg(rng) for _ in range(rng.randint(0, 6))]
+            if rng.random() < 0.03:
+                deep = ["x"]
+                for _ in range(rng.randint(10, 40)):
+                    deep = [rng.choice(["a", "NOT"]), deep] if rng.random() < 0.5 else [deep, "b"]
+                args.append(deep)                     # parentheses nested tens of levels deep
+            if rng.random() < 0.03:
+                args.append('"' + "long text with ünï " * rng.randint(200, 900) + '"')      # one argument of 4-18 kB
             nm = rng.choice(names)
             nm_w = rng.choice([nm, nm.upper(), nm.capitalize()])
             cmd = f"{nm_w}{rng.choice(['', ' ', chr(9)])}({argen.render_args(rng, args)}{rng.choice(['', ' ', chr(10)])})"
